@@ -316,6 +316,19 @@ func genSrcField(t *rapid.T, idx int, allowNoTagAnnotated bool) SrcField {
 					f.Inject = append(f.Inject, TagItem{k, genTagVal(t, "iv")})
 				}
 			}
+			if rapid.IntRange(0, 59).Draw(t, "manyKeys") == 31 {
+				// one comment with dozens of keys (beyond 64: whatever is tracked per injected item in a machine word overflows)
+				have := map[string]bool{}
+				for _, it := range f.Inject {
+					have[it.K] = true
+				}
+				for i, total := 0, rapid.SampledFrom([]int{63, 64, 65, 70, 130}).Draw(t, "nManyKeys"); len(f.Inject) < total; i++ {
+					k := fmt.Sprintf("k%d", i)
+					if !have[k] {
+						f.Inject = append(f.Inject, TagItem{k, rapid.SampledFrom([]string{"v", "x,omitempty", "required"}).Draw(t, "manyVal")})
+					}
+				}
+			}
 			if rapid.IntRange(0, 5).Draw(t, "mentionOnly") == 0 {
 				f.Inject = nil // a comment that merely mentions @tag
 				f.InjTail = rapid.SampledFrom([]string{"docs", "", "see above", "valid:\"\""}).Draw(t, "mention")
